@@ -1,0 +1,84 @@
+//go:build verif
+
+// Contracts for package ivg, checked by /verif/govc. Comment-only file: with the
+// build tag off it does not exist for the compiler.
+
+package ivg
+
+//@ uses colors
+
+//@ contract RGBAColor
+//@   ensures [C09.ctor.rgba] (and (= result (spec.colRGBA c)) (spec.validColor result))
+//@ contract PaletteIndexColor
+//@   ensures [C09.ctor.palette] (and (= result (spec.colPalette (bvand i #x3f))) (spec.validColor result))
+//@ contract CRegColor
+//@   ensures [C09.ctor.creg] (and (= result (spec.colCReg (bvand i #x3f))) (spec.validColor result))
+//@ contract BlendColor
+//@   ensures [C09.ctor.blend] (and (= result (spec.colBlend t c0 c1)) (spec.validColor result))
+
+//@ contract (Color).rgba
+//@   inline
+//@ contract (Color).paletteIndex
+//@   inline
+//@ contract (Color).cReg
+//@   inline
+//@ contract (Color).blend
+//@   inline
+//@ contract Is1$1
+//@   inline
+//@ contract Is2$1
+//@   inline
+
+//@ contract ValidAlphaPremulColor
+//@   ensures [C09.validpremul C04.validpremul C13.validpremul] (= result (spec.validPremul c))
+//@ contract ValidGradient
+//@   ensures [C04.isgradient C19.isgradient] (= result (spec.isGradient c))
+
+//@ contract (Color).RGBA
+//@   ensures [C09.rgba C13.sanitize] (= result.0 (spec.sanitize c))
+//@   ensures [C09.rgba.ok C13.sanitize] (= result.1 (and (= c.typ #x00) (spec.validPremul c.data)))
+
+//@ contract DecodeColor1
+//@   ensures [C09.dec.color1 C03.color1 C04.color1] (= result (spec.color1 x))
+//@   ensures [C09.dec.color1.noblend C04.color1] (not (= result.typ #x03))
+//@   ensures [C09.dec.color1.valid C04.color1] (spec.validColor result)
+
+//@ contract (Color).Resolve
+//@   ensures [C09.resolve.direct C04.resolve] (=> (not (= c.typ #x03)) (= result (spec.resolve1 c *palette *cReg)))
+//@   ensures [C09.resolve C04.resolve] (= result (spec.resolve c *palette *cReg))
+
+//@ contract Is1
+//@   ensures [C09.is1.implies-enc1 C01.is1 C13.is1] (=> result (spec.enc1able c))
+//@ contract Is2
+//@   ensures [C09.is2.implies-enc2 C01.is2] (=> result (spec.enc2able c))
+//@ contract Is3
+//@   ensures [C09.is3.implies-enc3 C01.is3] (=> result (= (color.RGBA.A c) #xff))
+
+//@ contract (Color).Is1
+//@   inline
+//@ contract (Color).Is2
+//@   inline
+//@ contract (Color).Is3
+//@   inline
+
+//@ contract (Color).Encode1
+//@   ensures [C09.enc1.sound C01.enc1] (=> (and ok (spec.validColor c)) (= (spec.color1 x) c))
+//@   ensures [C09.enc1.complete C01.enc1] (=> (and (spec.validColor c) (or (= c.typ #x01) (= c.typ #x02) (and (= c.typ #x00) (spec.enc1able c.data)))) ok)
+//@ contract (Color).Encode2
+//@   ensures [C09.enc2.sound C01.enc2] (=> ok (= (spec.color2 (select x #x0000000000000000) (select x #x0000000000000001)) c))
+//@   ensures [C09.enc2.complete C01.enc2] (=> (and (= c.typ #x00) (spec.enc2able c.data)) ok)
+//@ contract (Color).Encode3Direct
+//@   ensures [C09.enc3d.sound C01.enc3d] (=> ok (= (spec.color3d (select x #x0000000000000000) (select x #x0000000000000001) (select x #x0000000000000002)) c))
+//@   ensures [C09.enc3d.complete C01.enc3d] (=> (and (= c.typ #x00) (= c.data.A #xff)) ok)
+//@ contract (Color).Encode4
+//@   ensures [C09.enc4.sound C01.enc4] (=> ok (= (spec.color4 (select x #x0000000000000000) (select x #x0000000000000001) (select x #x0000000000000002) (select x #x0000000000000003)) c))
+//@   ensures [C09.enc4.complete C01.enc4] (=> (= c.typ #x00) ok)
+//@ contract (Color).Encode3Indirect
+//@   ensures [C09.enc3i.sound C01.enc3i] (=> (and ok (spec.validColor c)) (= (spec.color3i (select x #x0000000000000000) (select x #x0000000000000001) (select x #x0000000000000002)) c))
+//@   ensures [C09.enc3i.complete C01.enc3i] (=> (= c.typ #x03) ok)
+
+//@ contract EncodeGradient
+//@   ensures [C19.pack.gradient] (spec.isGradient result)
+//@   ensures [C19.pack.fields] (and (= (spec.grad.cbase result) (bvand cBase #x3f)) (= (spec.grad.nbase result) (bvand nBase #x3f)) (= (spec.grad.shape result) (bvand shape #x01)) (= (spec.grad.spread result) (bvand spread #x03)) (= (spec.grad.nstops result) (bvand nStops #x3f)))
+//@ contract DecodeGradient
+//@   ensures [C19.unpack C04.unpack] (and (= cBase (spec.grad.cbase c)) (= nBase (spec.grad.nbase c)) (= shape (spec.grad.shape c)) (= spread (spec.grad.spread c)) (= nStops (spec.grad.nstops c)))
